@@ -165,6 +165,38 @@ CLAIMED = {
    design_ref="DESIGN.md section 6, C17",
    note="Trusted: serde derive macros and serde_json (A-serde), the translator, the Python schema validator, the Rust harness.",
    technique="translator (derive sites -> schema) + validation of real JSON + behavioural round trip on generated and corpus objects"),
+ "C10": dict(
+   category="translation_validation",
+   text="The Gallina model of fst::SignalWriter (add_change with on-demand widening, expand_entries, finish) is run, extracted to OCaml, against the "
+        "real writer (hook) on every ordered pair/triple of state kinds x widths 1..40 and random sequences; oracle: de-duplicated values in "
+        "minimal kinds, independent of the order of kinds (a genuine defect, D2, was found and repaired this way). Every corpus FST with a "
+        "VCD twin is compared with the VCD load (tree, time table x timescale, value at every time). The FST container is the "
+        "dependency's (fst-reader) and is NOT modelled: blocks, compression, hierarchy bytes and time chain are covered only through the "
+        "corpus files (also in C07, C14, C17). fst_writer_spec is not yet proved, hence the level.",
+   design_ref="DESIGN.md section 6, C10",
+   note="Trusted: Coq kernel, extraction (ExtrOcamlBasic), OCaml driver, Rust harness, Python generators/oracles. A-fst: the dependency decodes the container correctly. No FST writer exists in the sandbox, so inputs of the container level cannot be varied.",
+   technique="correspondence: Coq model of the FST value path extracted to OCaml vs real code + oracle; corpus twins for the container"),
+ "C11": dict(
+   category="translation_validation",
+   text="The Gallina model of the GHW signal section reader (snapshot/cycle/directory/tailer sections, cycle delta arithmetic, signed LEB128, "
+        "STD_LOGIC_LUT, VecBuffer bit assembly with is_second_change / full_signal_has_changed / process_changed_signals) on top of the "
+        "Encoder model is run, extracted to OCaml, against ghw::signals::read_signals (hook with explicit decode information) on generated "
+        "section bytes (both endians, delta cycles, backwards times, all value types) and on damaged sections; oracle: values of every "
+        "variable after every cycle from the abstract history. The header/string/type/hierarchy sections (records, arrays, element naming, "
+        "alias registration) are NOT modelled; they are exercised through the corpus GHW files in C07, C13, C14, C17 (alias positions are "
+        "checked against declared bit ranges in C13, where defect D19 was repaired). vec_assembly is not yet proved, hence the level.",
+   design_ref="DESIGN.md section 6, C11",
+   note="Trusted: Coq kernel, extraction (ExtrOcamlBasic), OCaml driver, Rust harness, Python generators/oracles. The decode information produced by the unmodelled hierarchy reader is an input of the model.",
+   technique="correspondence: Coq model of the GHW signal sections extracted to OCaml vs real code + oracle from abstract history"),
+ "C12": dict(
+   category="translation_validation",
+   text="One abstract value history per variable is sent through the three value paths (VCD text, FST signal writer, GHW per-bit records), each on "
+        "the real code and on its Gallina model; all six observations must equal the meaning of the history (exhaustive widths 1..24 x kind "
+        "orders, random to width 130). All corpus waveforms existing in two formats are loaded from both and compared (tree, time table x "
+        "timescale, value at every time). three_writers_agree is not yet proved as a Coq corollary, hence the level.",
+   design_ref="DESIGN.md section 6, C12",
+   note="Trusted: Coq kernel, extraction (ExtrOcamlBasic), OCaml driver, Rust harness, Python generators/oracles. Corpus twins come from third-party converters; three documented conversion artefacts are excluded.",
+   technique="correspondence of three Coq value-path models vs real code + cross-format oracle; corpus twins"),
 }
 
 NOT_YET = {}
